@@ -54,13 +54,16 @@ type c12Report struct {
 
 // c12Worker runs inside a -race child process: `check worker c12 <seed> <nconfigs> <reps> <gomaxprocs> <out.json>`.
 func c12Worker(args []string) int {
-	if len(args) != 5 && len(args) != 6 {
-		fmt.Fprintln(os.Stderr, "usage: worker c12 seed nconfigs reps gomaxprocs out.json [scenario-shift]")
+	if len(args) < 5 || len(args) > 7 {
+		fmt.Fprintln(os.Stderr, "usage: worker c12 seed nconfigs reps gomaxprocs out.json [scenario-shift [only-config]]")
 		return 2
 	}
-	shift := 0
-	if len(args) == 6 {
+	shift, only := 0, -1
+	if len(args) >= 6 {
 		shift, _ = strconv.Atoi(args[5])
+	}
+	if len(args) == 7 {
+		only, _ = strconv.Atoi(args[6])
 	}
 	seed, _ := strconv.ParseUint(args[0], 10, 64)
 	ncfg, _ := strconv.Atoi(args[1])
@@ -86,6 +89,9 @@ func c12Worker(args []string) int {
 		return ""
 	}
 	for ci := 0; ci < ncfg; ci++ {
+		if only >= 0 && ci != only {
+			continue
+		}
 		root := newWorkDir("c12")
 		c, err := aliasingConfig(seed, ci, root)
 		if err != nil {
@@ -407,7 +413,7 @@ func c12(run *ev.Run, tier string) {
 	if *flagCases > 0 {
 		ncfg = *flagCases
 	}
-	run.Rule = "a -race build of the harness runs, in a child process per GOMAXPROCS value, four scenarios per generated aliasing-rich configuration (file_info on dir/symlink/ghost entries, per-format overrides, every third config signed with passphrase-protected keys, zstd/xz/gzip compressors; every second one with a payload file beyond 1 MiB, the others with a tree of 180 entries; one in four without any configured mtime (clock fallback, compared for success only); one in four colliding for exactly one format, which must fail while the others are built from the same configuration): (a) one parsed config, Get up front, five formats concurrently; (b) same with Get inside the goroutines; (c) 8 / 32 goroutines with independently parsed settings and any format incl. the same one; (d) four goroutines on the same format, format after format; start offsets are jittered from the seed; the scenario order rotates per configuration and per child, and seven configurations out of eight (all of the quick tier) take their sequential baseline only after the concurrent scenarios (cold start of process-wide state). Monitors: a batch that is still running after 10 minutes (builds blocking each other; goroutine dump in the report), race-detector reports (log_path files, deduplicated by the innermost nfpm functions of both accesses), panics/fatal errors, errors that the sequential build does not have, and byte equality of every unsigned concurrent result with the sequential baseline. non-trivial = packaging that overlapped in time with another one; distinct = distinct sets of formats observed in flight together"
+	run.Rule = "a -race build of the harness runs, in a child process per GOMAXPROCS value (plus short-lived children that start with one configuration and the scenario that meets its lazily initialised process-wide state cold: signing keys, changelog template, deprecation notice), four scenarios per generated aliasing-rich configuration (file_info on dir/symlink/ghost entries, per-format overrides, every third config signed with passphrase-protected keys, zstd/xz/gzip compressors; every second one with a payload file beyond 1 MiB, the others with a tree of 180 entries; one in four without any configured mtime (clock fallback, compared for success only); one in four colliding for exactly one format, which must fail while the others are built from the same configuration): (a) one parsed config, Get up front, five formats concurrently; (b) same with Get inside the goroutines; (c) 8 / 32 goroutines with independently parsed settings and any format incl. the same one; (d) four goroutines on the same format, format after format; start offsets are jittered from the seed; the scenario order rotates per configuration and per child, and seven configurations out of eight (all of the quick tier) take their sequential baseline only after the concurrent scenarios (cold start of process-wide state). Monitors: a batch that is still running after 10 minutes (builds blocking each other; goroutine dump in the report), race-detector reports (log_path files, deduplicated by the innermost nfpm functions of both accesses), panics/fatal errors, errors that the sequential build does not have, and byte equality of every unsigned concurrent result with the sequential baseline. non-trivial = packaging that overlapped in time with another one; distinct = distinct sets of formats observed in flight together"
 	if !raceEnabled {
 		run.Inconclusive("the harness was built without -race; run through bin/check.sh C12")
 		return
@@ -422,12 +428,36 @@ func c12(run *ev.Run, tier string) {
 	overlapSets := map[string]bool{}
 	var packagings, overlapped, compared, raceBlocks int
 	raceKeys := map[string]int{}
+	// child processes: one per GOMAXPROCS value over all configurations, plus
+	// short-lived ones that start with ONE configuration and the scenario that
+	// meets its lazily initialised process-wide state cold (signing keys,
+	// changelog template, deprecation notice): such state is written once per
+	// process, so every fresh process is one more chance to see the write race
+	type job struct {
+		g, shift, only, reps int
+		tag                  string
+	}
+	var jobs []job
 	for gi, g := range gmps {
-		out := filepath.Join(dir, fmt.Sprintf("report-%d.json", g))
-		logp := filepath.Join(dir, fmt.Sprintf("race-%d", g))
-		args := []string{"worker", "c12", strconv.FormatInt(run.Seed, 10), strconv.Itoa(ncfg), strconv.Itoa(reps), strconv.Itoa(g), out, strconv.Itoa(gi)}
+		jobs = append(jobs, job{g, gi, -1, reps, strconv.Itoa(g)})
+	}
+	ncold := 3
+	if tier == "thorough" {
+		ncold = 8
+	}
+	for x := 0; x < ncold; x++ {
+		jobs = append(jobs,
+			job{16, 3 * x, 1, 1, fmt.Sprintf("cold-signing-%d", x)},      // config 1: signed, scenario (c) first
+			job{8, 3*x + 1, 0, 1, fmt.Sprintf("cold-changelog-%d", x)},    // config 0: changelog, scenario (c) first
+			job{16, 3 * x, 3, 1, fmt.Sprintf("cold-no-maintainer-%d", x)}) // config 3: no maintainer, scenario (a) first
+	}
+	for _, jb := range jobs {
+		g := jb.g
+		out := filepath.Join(dir, fmt.Sprintf("report-%s.json", jb.tag))
+		logp := filepath.Join(dir, fmt.Sprintf("race-%s", jb.tag))
+		args := []string{"worker", "c12", strconv.FormatInt(run.Seed, 10), strconv.Itoa(ncfg), strconv.Itoa(jb.reps), strconv.Itoa(g), out, strconv.Itoa(jb.shift), strconv.Itoa(jb.only)}
 		cmdline := self + " " + strings.Join(args, " ")
-		_ = os.WriteFile(filepath.Join(dir, fmt.Sprintf("cmd-%d.txt", g)), []byte(cmdline+"\n"), 0o644)
+		_ = os.WriteFile(filepath.Join(dir, fmt.Sprintf("cmd-%s.txt", jb.tag)), []byte(cmdline+"\n"), 0o644)
 		cmd := exec.Command("timeout", append([]string{"-s", "QUIT", "1500", self}, args...)...)
 		cmd.Env = append(os.Environ(), "GORACE=halt_on_error=0 log_path="+logp, "VERIF_TMP="+dir)
 		var so, se bytes.Buffer
